@@ -50,6 +50,52 @@ PROPS = {
         "notes": ["a control message carrying text after its header is outside the accept rule and contradicts the re-encoding rule of C03: both outcomes are tolerated (DESIGN 3.8)"],
         "assumptions": COMMON_ASSUMPTIONS,
     },
+    "C13": {
+        "level": "exploration",
+        "jobs": [
+            {"test": "TestC13Sweep", "kind": "enum"},
+            {"test": "TestC13Items", "kind": "enum"},
+        ],
+        "exhaustive": {"quick": False, "thorough": True},
+        "rule": "sweep of the header routine (verif-tagged export) over (format, element count): thorough = every count with count*width in 0..16,777,215 plus the next 64 "
+                "(about 136M calls, exhaustive), quick = all counts <= 70000, +-300 around each border, seeded stride beyond; plus real items built through the factories at "
+                "counts {0,1, around 255|256 and 65535|65536, limit-1, limit, limit+1, limit+2} for all 14 formats, encoded, framed and decoded back. Oracle: reference header "
+                "(format code, shortest big-endian length, 1/2/3 bytes at exactly 255|256 and 65535|65536, refusal beyond the limit); factory succeeds iff count*width <= 16,777,215; "
+                "ToBytes() non-empty with that header and exact total length; decoder re-encodes to the same bytes. Non-trivial: count > 0; distinct by (format, count) by construction.",
+        "assumptions": COMMON_ASSUMPTIONS + ["hook: pkg/ast/export_verif.go (build tag verif) only forwards to the unexported header routine"],
+    },
+    "C14": {
+        "level": "exploration",
+        "jobs": [{"test": "TestC14", "kind": "enum"}],
+        "exhaustive": {"quick": False, "thorough": True},
+        "rule": "enumeration: all 65536 (PType, SType) pairs through NewHSMSControlMessage (other header bytes pseudo-random); all 65536 session ids through select/deselect/separate/"
+                "reject requests and select/deselect responses; all 256 status codes x 3 response constructors x 11 kinds of request argument (8 control kinds, undefined SType, "
+                "undefined PType, data message); reject.req over (ptype, stype, reason): all 2^24 (thorough) or 12x12x256 boundary + 20000 random (quick). Oracle: reference table "
+                "(14 bytes, length 10, fixed positions, echo rules, refusal of wrong request kind), Type() == f(PType, SType), hsms.Parse round trip iff PType 0 and defined SType "
+                "(reference decoder otherwise). Non-trivial: non-zero session or code, or a raw header; distinct = FNV-64 of the case.",
+        "exhaustive_note": {"quick": "exhaustive: (PType,SType) pairs, session ids, status codes x request kinds", "thorough": "additionally exhaustive: all 2^24 reject.req triples"},
+        "assumptions": COMMON_ASSUMPTIONS,
+    },
+    "C12": {
+        "level": "exploration",
+        "jobs": [
+            {"test": "TestC12Value", "kind": "rapid", "quick": 800000, "thorough": 4800000},
+            {"test": "TestC12ASCII", "kind": "rapid", "quick": 40000, "thorough": 800000, "shards": 4},
+            {"test": "TestC12Name", "kind": "rapid", "quick": 40000, "thorough": 800000, "shards": 4},
+            {"test": "TestC12List", "kind": "rapid", "quick": 20000, "thorough": 200000, "shards": 2},
+            {"test": "TestC12Msg", "kind": "rapid", "quick": 40000, "thorough": 800000, "shards": 4},
+        ],
+        "floors": {"outcome:refused": ("job:TestC12Value", 0.15), "outcome:stored": ("job:TestC12Value", 0.3), "via:fill": ("job:TestC12Value", 0.3),
+                   "msg:valid=false": ("job:TestC12Msg", 0.2), "msg:valid=true": ("job:TestC12Msg", 0.2)},
+        "rule": "every factory x every accepted Go argument type (int..int64, uint..uint64, float32/64, bool, binary strings) x values at and beyond every boundary of the target "
+                "item type and of the Go type (plus random bit patterns), directly and through FillVariables; 7-bit / non-7-bit / invalid UTF-8 strings; variable names from a grammar of "
+                "valid and near-valid spellings at every site incl. duplicates within a node and across a tree; ellipsis placement/multiplicity; message factories and producers with "
+                "stream/function/wait/direction/session/name at and beyond their ranges (names with every Unicode space). Oracle: from the mathematical value (math/big): in the domain "
+                "=> no panic, the value read back from String() by an independent reader equals it (floats: rounded to the width) and ToBytes() == reference encoding; outside => panic. "
+                "Non-trivial: value within 1 of a boundary of the target or Go type, or a refused case; distinct = FNV-64 of the case.",
+        "notes": ["F4 magnitudes in (MaxFloat32, MaxFloat32 + half ulp] are EITHER; integers wider than 53 bits into F4 may be rounded once or twice (both accepted)"],
+        "assumptions": COMMON_ASSUMPTIONS,
+    },
     "C02": {
         "level": "exploration",
         "jobs": [
@@ -72,11 +118,29 @@ PROPS = {
     },
 }
 
-HOOK_COMMITS = []
+HOOK_COMMITS = ["013f498"]
 NOT_APPLICABLE = {}
 
 _PBT = "property-based testing (pgregory.net/rapid generators + shrinking)"
 MANIFEST_TEXT = {
+    "C12": {
+        "technique": _PBT + ": boundary-directed argument generation for every factory / FillVariables, oracle from the exact mathematical value (math/big) via an independent reader of the printed form and the reference encoder",
+        "level_text": "Exploration of the argument space of all factories and producers: every Go argument type at and around every range boundary of target and argument type, "
+                      "malformed names, duplicates, ellipsis rules, message header ranges; accept-exactly-or-panic oracle.",
+        "level_note": "Trusted: model.ReadItem (independent reader of the printed form), math/big; argument types a factory does not document are accepted either way but must be exact when stored.",
+    },
+    "C14": {
+        "technique": "exhaustive enumeration of the control-message header space (generated cases, reference table oracle, decode round trip)",
+        "level_text": "All (PType,SType) pairs, all session ids, all status codes and every kind of request argument are enumerated; reject.req triples exhaustively in the thorough tier. "
+                      "System bytes and remaining header bytes are pseudo-random (seeded).",
+        "level_note": "Trusted: the reference table in c14_test.go written from SEMI E37 / the property statement.",
+    },
+    "C13": {
+        "technique": "exhaustive enumeration of the finite (format, size) space through a verif-tagged export + boundary items through the real factories/decoder, against a reference header",
+        "level_text": "Thorough: complete sweep of all 14 formats x every size 0..16,777,215 (+64 beyond) of the header routine, and maximal / just-too-large real items for every format; "
+                      "quick: all sizes <= 70000, neighbourhoods of every border and a stride. Enumeration is the limiting case of generation; exhaustive sub-spaces are flagged in the evidence.",
+        "level_note": "Trusted: the 12-line reference header; the hook forwards to getHeaderBytes unchanged. Real items use one repeated element value (the size logic does not look at values).",
+    },
     "C01": {
         "technique": _PBT + ": round-trip oracle hsms.Parse(m.ToBytes()) over generated complete messages built by 4 routes",
         "level_text": "Generated-input exploration: ~10^5 (quick) / ~3x10^6 (thorough) complete messages incl. 2- and 3-byte length fields, maximal items, all 14 formats; "
